@@ -377,8 +377,52 @@ void h_alloc(void)
     }
 }
 
+#ifdef VF_STRAY
+/* C20 replay: a bitwise copy of an array object (empty, and holding a buffer) must end in abort() */
+static void vf_stray_call(void * x)
+{
+    void ** g = x; cstl_array_t * s = g[0], * e = g[1]; void * buf[2];
+    (void)e; (void)buf;
+#if VF_STRAY == 1
+    cstl_array_alloc(s, 4, 8);
+#elif VF_STRAY == 2
+    cstl_array_set(s, buf, 2, sizeof(buf[0]));
+#elif VF_STRAY == 3
+    cstl_array_release(s, NULL);
+#elif VF_STRAY == 4
+    cstl_array_data_const(s);
+#elif VF_STRAY == 5
+    cstl_array_at_const(s, 0);
+#elif VF_STRAY == 6
+    cstl_array_slice(s, 0, 0, e);
+#elif VF_STRAY == 7
+    cstl_array_unslice(s, e);
+#elif VF_STRAY == 8
+    cstl_array_reset(s);
+#endif
+}
+void h_stray(void)
+{
+    int live;
+    for (live = 0; live < 2; live++) {
+        cstl_array_t orig, copy, other; void * g[2]; int sig;
+        cstl_array_init(&orig); cstl_array_init(&other);
+        if (live) cstl_array_alloc(&orig, 4, 8);
+        memcpy(&copy, &orig, sizeof(copy));
+        g[0] = &copy; g[1] = &other;
+        sig = vf_try(vf_stray_call, g);
+        printf("stray array copy (%s): signal %d\n", live ? "with buffer" : "empty", sig);
+        VF_NCHECK(sig == SIGABRT, "a call through a bitwise copy of an array object aborts");
+    }
+}
+#endif
 struct vf_harness { const char * name; void (*fn)(void); };
 struct vf_harness vf_harnesses[] = {
-    { "h_slice", h_slice }, { "h_at", h_at }, { "h_alloc", h_alloc }, { NULL, NULL }
+#ifdef VF_STRAY
+    { "h_stray", h_stray },
+#else
+    { "h_slice", h_slice }, { "h_at", h_at }, { "h_alloc", h_alloc },
+#endif
+    { NULL, NULL }
 };
 #endif
